@@ -310,6 +310,7 @@ fn parse_number<'a, T: Iterator<Item = &'a Token>>(
 ) -> Result<Cell, Error> {
     let mut exactness = Exactness::Unspecified;
     let mut radix = 10;
+    let prefixed = token.token_type == NumberPrefix;
 
     while token.token_type == NumberPrefix {
         match token.span(text) {
@@ -333,6 +334,11 @@ fn parse_number<'a, T: Iterator<Item = &'a Token>>(
     let span = token.span(text);
     match Number::parse_with_exactness(span, exactness, radix) {
         Some(num) => Ok(Cell::Number(num)),
+        // after a prefix the text has to be a numeral: `#b102` is not the symbol `102`
+        None if prefixed => Err(Error::SyntaxError(format!(
+            "{} is not a number in radix {}",
+            span, radix
+        ))),
         None => Ok(Cell::Symbol(span.to_string())),
     }
 }
